@@ -29,6 +29,8 @@ pub enum Op {
     /// `parent`: index into live contexts (modulo); `initial`: 0 none, 1 const, 2 wired
     /// `via`: 0 `init_i18n_subcontext_with_options` + provide_context, 1 the deprecated `provide_i18n_subcontext`,
     /// 2 `i18n_sub_context_provider_island` (what the island `<I18nSubContextProvider>` calls);
+    /// 3 the same, called in the owner its parent's other provider children are called in (several `<I18nSubContextProvider>`
+    /// written next to each other in one component body: components have no owner of their own);
     /// `in_region`: created inside a reactive region (a `RenderEffect`, as `{move || view!{..}}`, `<Show>` or an outlet are)
     CreateSub { parent: usize, initial: u8, init_locale: usize, sig: usize, cookie_name: Option<String>, via: u8, in_region: bool },
     NewSignal { l: usize },
@@ -55,7 +57,7 @@ impl Op {
     pub fn to_json(&self) -> Value {
         match self {
             Op::CreateMain { enable_cookie, cookie_name, via_provider } => json!({"op": "create_main", "enable_cookie": enable_cookie, "cookie_name": cookie_name, "via_provider": via_provider}),
-            Op::CreateSub { parent, initial, init_locale, sig, cookie_name, via, in_region } => json!({"op": "create_sub", "parent": parent, "initial": match initial { 0 => "none", 1 => "const", _ => "wired" }, "init_locale": LOCS[*init_locale % LOCS.len()], "sig": sig, "cookie_name": cookie_name, "via": match via { 0 => "init", 1 => "deprecated_provide", _ => "island_fn" }, "in_region": in_region}),
+            Op::CreateSub { parent, initial, init_locale, sig, cookie_name, via, in_region } => json!({"op": "create_sub", "parent": parent, "initial": match initial { 0 => "none", 1 => "const", _ => "wired" }, "init_locale": LOCS[*init_locale % LOCS.len()], "sig": sig, "cookie_name": cookie_name, "via": match via { 0 => "init", 1 => "deprecated_provide", 3 => "island_fn_same_owner", _ => "island_fn" }, "in_region": in_region}),
             Op::NewSignal { l } => json!({"op": "new_signal", "l": LOCS[*l % LOCS.len()]}),
             Op::Scope { view, which } => json!({"op": "scope", "view": view, "which": which}),
             Op::Set { view, l, in_observer } => json!({"op": "set", "view": view, "l": LOCS[*l % LOCS.len()], "in_observer": in_observer}),
@@ -78,7 +80,7 @@ impl Op {
         let name = |k: &str| v[k].as_str().map(String::from);
         Some(match v["op"].as_str()? {
             "create_main" => Op::CreateMain { enable_cookie: v["enable_cookie"].as_bool().unwrap_or(true), cookie_name: name("cookie_name"), via_provider: v["via_provider"].as_bool().unwrap_or(false) },
-            "create_sub" => Op::CreateSub { parent: u("parent"), initial: match v["initial"].as_str()? { "none" => 0, "const" => 1, _ => 2 }, init_locale: l("init_locale"), sig: u("sig"), cookie_name: name("cookie_name"), via: match v["via"].as_str() { Some("deprecated_provide") => 1, Some("island_fn") => 2, _ => 0 }, in_region: v["in_region"].as_bool().unwrap_or(false) },
+            "create_sub" => Op::CreateSub { parent: u("parent"), initial: match v["initial"].as_str()? { "none" => 0, "const" => 1, _ => 2 }, init_locale: l("init_locale"), sig: u("sig"), cookie_name: name("cookie_name"), via: match v["via"].as_str() { Some("deprecated_provide") => 1, Some("island_fn") => 2, Some("island_fn_same_owner") => 3, _ => 0 }, in_region: v["in_region"].as_bool().unwrap_or(false) },
             "new_signal" => Op::NewSignal { l: l("l") },
             "scope" => Op::Scope { view: u("view"), which: u("which") },
             "set" => Op::Set { view: u("view"), l: l("l"), in_observer: v["in_observer"].as_bool().unwrap_or(false) },
@@ -151,7 +153,10 @@ const ACCEPT_POOL: &[&str] = &[
     "es-ES,es,pt-PT,pt,it,nl,sv,da,pl,cs,fr-FR,fr,en", "es,it,nl,sv,da,pl,cs,fi,nb,hu,ro,de-AT;q=0.1",
     "de-1996,fr", "de-CH-1901", "ca-ES-valencia,fr", "fr-CA-fonipa", "zh-Hant-TW-x-private,de",
 ];
-const ACCEPT_POOL_OWS: &[&str] = &["es, fr", "fr-CA, fr;q=0.9, en;q=0.8", "it , de", "es,\tpt-BR"];
+// optional whitespace of RFC 9110 (`OWS = *( SP / HTAB )`) on either side of an element, of its parameters and at both ends of the header
+const ACCEPT_POOL_OWS: &[&str] = &[
+    "es, fr", "fr-CA, fr;q=0.9, en;q=0.8", "it , de", "es,\tpt-BR", "fr\t;q=0.9, de;q=0.8", "de\t", "es\t,\tfr\t", " \tpt-BR \t;q=1", "it \t, \t de \t ,fr", "\tzh-Hant-TW\t,\ten",
+];
 // "pt-BR" is the canonical spelling of the configured `pt-br`: not a configured locale name
 const COOKIE_VALUES: &[&str] = &["en", "fr", "fr-CA", "de", "pt-br", "zh", "zh-Hant", "ar", "pt-BR", "zh-hant", " fr", "de ", "xx", "", "fr_CA", "en-", "french", "e", "1"];
 // (the default name too: a sub-context or a `resolve_locale` call may be told to use the main context's cookie)
@@ -202,7 +207,7 @@ pub fn generate(rng: &mut Rng, ows: bool) -> Plan {
                     init_locale: rng.below(LOCS.len()),
                     sig: rng.below(3),
                     cookie_name: if rng.chance(1, 3) { Some(rng.pick(COOKIE_NAMES).to_string()) } else { None },
-                    via: if rng.chance(1, 4) { 1 + rng.below(2) as u8 } else { 0 },
+                    via: if rng.chance(1, 4) { 1 + rng.below(3) as u8 } else { 0 },
                     in_region: rng.chance(1, 5),
                 },
                 1 => Op::NewSignal { l: rng.below(LOCS.len()) },
@@ -386,6 +391,8 @@ struct Page {
     /// reactive regions and island views created by the page: kept alive until the page is disposed
     keep: Vec<Box<dyn std::any::Any>>,
     region_builds: Vec<(usize, Arc<std::sync::atomic::AtomicUsize>)>,
+    /// parent context -> the owner standing for the component body its sibling providers are written in
+    comp_owners: BTreeMap<usize, Owner>,
 }
 
 impl Page {
@@ -470,6 +477,7 @@ pub fn execute(plan: &Plan, rng: &mut Rng) -> Outcome {
             default_getters: AXUM && load.default_getters,
             keep: vec![],
             region_builds: vec![],
+            comp_owners: BTreeMap::new(),
         };
         #[cfg(feature = "world_ax")]
         let response_options = leptos_axum::ResponseOptions::default();
@@ -588,9 +596,10 @@ pub fn execute(plan: &Plan, rng: &mut Rng) -> Outcome {
                     if via != 0 && parent_idx.is_none() && !page.default_getters {
                         via = 0;
                     }
-                    if via == 2 && *initial == 2 {
+                    if via >= 2 && *initial == 2 {
                         via = 0; // the island provider takes a plain locale, not a signal
                     }
+                    let in_region = if via == 3 { &false } else { in_region };
                     // the deprecated function takes no cookie name
                     let cookie_name: Option<String> = if via == 1 { None } else { cookie_name.clone() };
                     let cookie_name = &cookie_name;
@@ -603,6 +612,11 @@ pub fn execute(plan: &Plan, rng: &mut Rng) -> Outcome {
                         executed = false; // every context of the page is disposed
                     } else {
                         let owner = match parent_idx {
+                            // one "component body" per parent: every provider written in it is called in this same owner
+                            Some(p) if via == 3 => {
+                                let parent_owner = page.ctxs[p].owner.clone();
+                                page.comp_owners.entry(p).or_insert_with(|| parent_owner.child()).clone()
+                            }
                             Some(p) => page.ctxs[p].owner.child(),
                             None => root.clone(), // parent-less sub-context used as the page's main context
                         };
@@ -695,7 +709,7 @@ pub fn execute(plan: &Plan, rng: &mut Rng) -> Outcome {
                                 abort_load = true;
                             }
                             Ok((ctx, provided_in)) => {
-                                stats.probe(match via { 0 => "sub_via_init", 1 => "sub_via_deprecated_provide", _ => "sub_via_island_fn" });
+                                stats.probe(match via { 0 => "sub_via_init", 1 => "sub_via_deprecated_provide", 3 => "sub_via_island_fn_same_owner", _ => "sub_via_island_fn" });
                                 // ---- C15: cookie > explicit initial > parent's current locale > (no parent) header/default
                                 let from_cookie = cookie_name.as_ref().filter(|_| COOKIES && cookie_visible).and_then(|n| cookie_locale(&page.cookie_header, n));
                                 let from_init = match initial {
